@@ -131,6 +131,27 @@ class Ctx:
                 self.mono[mono] = t
         return t
 
+    def check_refined(self, extra, timeout_ms=15000):
+        """the same query with every abstracted monomial replaced by the true product of its atoms (non-linear real arithmetic):
+        'unsat' refutes a spurious candidate of the monomial abstraction, 'sat' gives a model that respects the products"""
+        if self.mode != "lra" or not self.mono:
+            return "unknown", None
+        subs = []
+        for mono, t in self.mono.items():
+            prod = self.atoms[mono[0]].z3
+            for i in mono[1:]:
+                prod = prod * self.atoms[i].z3
+            subs.append((t, prod))
+        s = self.solver(timeout_ms)
+        for c in list(self.side) + [as_z3(c) for c in self.assume] + [as_z3(e) for e in extra]:
+            s.add(z3.substitute(c, *subs))
+        t0 = time.time()
+        r = s.check()
+        self.solver_s += time.time() - t0
+        self.queries += 1
+        rs = str(r)
+        return rs, (s.model() if rs == "sat" else None)
+
     # -- solver ---------------------------------------------------------------------------------
     def solver(self, timeout_ms=None):
         s = z3.Solver()
